@@ -1,7 +1,7 @@
 (* C19 -- Term enumeration is complete and term typing depends only on UFF types.
    Model: Model/Terms.v.  UFF type strings are replaced by their rank (order-preserving), so typekey's comparison is the same. *)
 From Coq Require Import List Arith Bool.
-From Mofun Require Import Model.Terms Proofs.TermsProofs.
+From Mofun Require Import Model.Terms Proofs.TermsProofs Proofs.GraphProofs.
 Import ListNotations.
 
 (* typekey picks the sequence or its reversal, identically for both directions: same key <-> same sequence up to reversal *)
@@ -33,8 +33,40 @@ Theorem C19_same_type_iff_same_key : forall keys i j ki kj, nth_error keys i = S
 Proof. exact assign_same_type_iff. Qed.
 Print Assumptions C19_same_type_iff_same_key.
 
-(* the enumeration on graphs is validated by exhaustive correspondence (all triangle-free graphs on <= 4 / <= 5 atoms); PARTIAL: the
-   graph-level completeness statement (every chain i-j-k-l exactly once) is not proved as a theorem about `adj` *)
+(* graph level, for EVERY bond list (duplicates, both written directions and self-loops allowed).  nbr b n y: y <> n and the bond
+   n-y is listed in either direction.
+   Angles: what is produced is i-n-j with i, j distinct atoms bonded to n; every such pair of bonds sharing an atom is produced in
+   exactly one of its two directions; nothing is produced twice. *)
+Theorem C19_angles_sound : forall b t, In t (calc_angles b) -> exists i n j, t = [i; n; j] /\ nbr b n i /\ nbr b n j /\ i <> j.
+Proof. exact angles_sound. Qed.
+Print Assumptions C19_angles_sound.
+Theorem C19_angles_complete_once : forall b n i j, nbr b n i -> nbr b n j -> i <> j ->
+  (In [i; n; j] (calc_angles b) /\ ~ In [j; n; i] (calc_angles b)) \/ (In [j; n; i] (calc_angles b) /\ ~ In [i; n; j] (calc_angles b)).
+Proof. exact angles_complete. Qed.
+Print Assumptions C19_angles_complete_once.
+Theorem C19_angles_no_duplicates : forall b, NoDup (calc_angles b).
+Proof. exact angles_NoDup. Qed.
+Print Assumptions C19_angles_no_duplicates.
+(* Dihedrals: what is produced is a chain i-j-k-l of bonded atoms with i <> k and l <> j; every such chain is produced in exactly one
+   of its two directions (each bond serves as central bond in one direction only); nothing is produced twice. *)
+Theorem C19_each_bond_central_once : forall b j k, nbr b j k ->
+  (In (j, k) (edges b) /\ ~ In (k, j) (edges b)) \/ (In (k, j) (edges b) /\ ~ In (j, k) (edges b)).
+Proof. exact edges_once. Qed.
+Print Assumptions C19_each_bond_central_once.
+Theorem C19_dihedrals_sound : forall b t, In t (calc_dihedrals b) ->
+  exists i j k l, t = [i; j; k; l] /\ nbr b j i /\ nbr b j k /\ nbr b k l /\ i <> k /\ l <> j.
+Proof. exact dihedrals_sound. Qed.
+Print Assumptions C19_dihedrals_sound.
+Theorem C19_dihedrals_complete_once : forall b i j k l, nbr b j i -> nbr b j k -> nbr b k l -> i <> k -> l <> j ->
+  (In [i; j; k; l] (calc_dihedrals b) /\ ~ In [l; k; j; i] (calc_dihedrals b)) \/
+  (In [l; k; j; i] (calc_dihedrals b) /\ ~ In [i; j; k; l] (calc_dihedrals b)).
+Proof. exact dihedrals_complete. Qed.
+Print Assumptions C19_dihedrals_complete_once.
+Theorem C19_dihedrals_no_duplicates : forall b, NoDup (calc_dihedrals b).
+Proof. exact dihedrals_NoDup. Qed.
+Print Assumptions C19_dihedrals_no_duplicates.
+(* the model's node and neighbour order (networkx insertion order) is tied to the implementation by the exhaustive correspondence run
+   (all triangle-free graphs on <= 4 / <= 5 atoms, random larger ones); the theorems above do not depend on that order *)
 Example C19_nonvacuous :
   calc_angles [(0, 1); (1, 2); (2, 1); (3, 1)] = [[0; 1; 2]; [0; 1; 3]; [2; 1; 3]] /\
   length (calc_dihedrals [(0, 1); (1, 2); (2, 3); (1, 4)]) = 2 /\
